@@ -1,9 +1,9 @@
 """Which obligations belong to which property (dependency closure of its contracts)."""
 
 UNIT_RLIMIT = {}      # unit -> --rlimit
-UNIT_TIMEOUT = {}     # unit -> seconds
+UNIT_TIMEOUT = {"knuth": 1500, "addmul": 900}     # unit -> seconds
 UNIT_EXPECT = {       # unit -> minimum number of verified functions on the unchanged tree (vacuity guard)
-    "core": 31, "add": 29, "kernels": 79, "addmul": 71, "addmul_n": 73, "mul": 51,
+    "core": 31, "add": 29, "kernels": 79, "addmul": 71, "addmul_n": 73, "mul": 51, "div_small": 183, "knuth": 145, "mul_redc": 69, "basics": 22, "pow": 38, "divw": 54,
 }
 
 COMMON_TRUST = [
@@ -19,20 +19,31 @@ _KDIR = _os.path.join(_os.path.dirname(_os.path.dirname(_os.path.abspath(__file_
 
 
 def hs(module, include=None, exclude=None):
-    """harness names declared in kani/src/<module>.rs, filtered by regex"""
+    """harness names declared in kani/src/<module>.rs (incl. one level of `pub mod x { }`), filtered by regex"""
     try:
         src = open(_os.path.join(_KDIR, module + ".rs")).read()
     except OSError:
         return []
-    i = src.find("crate::harnesses!")
-    names = _re.findall(r"fn\s+(%s_[A-Za-z0-9_]+)\s*\(\)" % _re.escape(module.rstrip("p")), src[i:]) if i >= 0 else []
+    pat = r"fn\s+(%s_[A-Za-z0-9_]+)\s*\(\)\s*\{" % _re.escape(module)
+    names = []
+    rest = src
+    for m in _re.finditer(r"\npub mod (\w+) \{\n(.*?)\n\}", src, _re.S):
+        sub, body = m.group(1), m.group(2)
+        rest = rest.replace(m.group(0), "\n")
+        if sub == "arb":
+            continue    # needs --features codecs
+        for n in _re.findall(pat, body):
+            names.append("%s::%s::%s" % (module, sub, n))
+    i = rest.find("\ncrate::harnesses!")
+    for n in (_re.findall(pat, rest[i:]) if i >= 0 else []):
+        names.append("%s::%s" % (module, n))
     out = []
     for n in names:
         if include and not _re.search(include, n):
             continue
         if exclude and _re.search(exclude, n):
             continue
-        out.append("%s::%s" % (module, n))
+        out.append(n)
     return out
 
 
@@ -145,5 +156,91 @@ PROPS = {
         explanation="harness-level contracts against digit oracles computed from the limbs",
         trusted=COMMON_TRUST,
         not_decided=["widths outside the grid"],
+    ),
+    "C14": dict(
+        level="proof",
+        level_text="Verus proves on the extracted real code: div_2x1_mg10 (MG10 Thm 2), div_3x2_mg10 (Thm 3), reciprocal_2_mg10 (Alg. 6), reciprocal_ref, div_nx1_normalized, div_nx2_normalized and "
+                   "the complete un-normalised Knuth D div_nxm (estimate, multiply-subtract, add-back, forced digit, shift==0 shortcut, q_high, final shuffle) against n = q*d + r, r < d over limb values",
+        level_note="ASSUMED: reciprocal_mg10 (table-seeded Newton iteration over Wrapping<u64>; its contract 'equals reciprocal_ref' is assumed, the lookup table is pinned by unit recip_table), "
+                   "the `div` dispatcher's trimming/dispatch logic and div_nx1/div_nx2 (un-normalised drivers with get_unchecked) are under an assumed contract in unit divd; div_nxm_normalized not covered; "
+                   "one fact about u64::leading_zeros (lemma_lz_facts, Kani full domain), Option::copied, slice::fill, u128::overflowing_sub specs",
+        technique="deductive contracts (Verus, all slice lengths and limb values) on the division kernels",
+        units=["kernels", "div_small", "knuth", "recip_table"],
+        kani=dict(features=None, quick=hs("c14"), thorough=hs("c14"), bounds="leading_zeros fact: all u64 (loop-free, complete)"),
+        explanation="each kernel's documented conditions of use are its requires; its ensures is the Euclidean identity in lvr() terms with the in-place layout",
+        trusted=COMMON_TRUST,
+        not_decided=["body of reciprocal_mg10 beyond its lookup table", "div dispatcher trimming/dispatch", "div_nx1 / div_nx2 (un-normalised)", "div_nxm_normalized"],
+    ),
+    "C03": dict(
+        level="proof",
+        level_text="Verus proves div_rem, wrapping_div/rem, checked_div/rem (None iff d == 0), div_ceil, checked_next_multiple_of and next_multiple_of against the Euclidean contract over val() "
+                   "for every BITS/LIMBS, modular over the contract of algorithms::div; the division kernels behind it are proved in C14's units (closure includes them)",
+        level_note="relative to the ASSUMED contract of the `div` dispatcher and of reciprocal_mg10 (see C14); operator forms / and % are assumed to forward to wrapping_div/rem (C20); "
+                   "'zero divisor panics' is a Kani should_panic obligation per width (c03p), 'non-zero divisor never panics' is the Verus no-panic obligation under d != 0",
+        technique="deductive contracts (Verus, all widths) + Kani should_panic/None harnesses per width",
+        units=["core", "basics", "add", "mul", "kernels", "addmul", "addmul_n", "div_small", "knuth", "divd", "divw"],
+        kani=dict(features=None, quick=hs("c03p", None, r"_w8_|divrem_w8"), thorough=hs("c03p"), bounds="widths 1, 64, 65 for the zero-divisor clauses; 8-bit exhaustive division"),
+        explanation="the property's sentences are postconditions of the Uint methods; r < d and n = q*d + r give q = floor(n/d) by lemma_euclid",
+        trusted=COMMON_TRUST,
+        not_decided=["/ and % operator impls (forwarding only)"],
+    ),
+    "C13": dict(
+        level="proof",
+        level_text="Verus proves overflowing_pow, wrapping_pow, checked_pow, saturating_pow and pow against a^e mod 2^BITS with the exact overflow flag for every BITS/LIMBS (square-and-multiply loop with ghost true values), "
+                   "modular over the proved contracts of overflowing_mul / wrapping_mul, is_zero, bit(0), ONE",
+        level_note="ASSUMED: `exp >>= 1` halves the value (operator impl, C05/C20); NOT decided: log (base != 2) and root depend on libm f64 accuracy (neither verifier models libm) - only their panic/None "
+                   "conditions and log2 are Kani obligations per width (c13)",
+        technique="deductive contracts (Verus, all widths) for pow; Kani per width for log/root panic-freedom and None conditions",
+        units=["core", "basics", "kernels", "addmul", "addmul_n", "mul", "pow"],
+        kani=dict(features=None, quick=hs("c13"), thorough=hs("c13"), bounds="log/root: tiny widths only"),
+        explanation="loop invariant rr * ss^exp == a^e0 with result = rr mod M, this = ss mod M, overflow <=> rr >= M, base_overflow <=> ss >= M",
+        trusted=COMMON_TRUST,
+        not_decided=["log for base != 2 and root: values depend on libm (f64 log2/exp2) accuracy", "root termination"],
+    ),
+    "C11": dict(
+        level="proof",
+        level_text="Verus proves mul_redc<N> (CIOS Montgomery multiplication) for ALL N on the extracted real code: for inv*m[0] = -1 mod 2^64 and a, b < m the result r satisfies r < m and "
+                   "2^(64N) * r = a*b + m*mu for some integer mu, i.e. r = a*b*2^(-64N) mod m fully reduced; also carrying_mul_add",
+        level_note="ASSUMED: reduce1_carry/sub (zip over arrays by value is outside the Verus subset; contract discharged per N in 1..4 by Kani c11), Ordering::eq; NOT decided: square_redc (separate body with doubled "
+                   "cross terms, not yet under proof), the Uint::mul_redc/square_redc wrappers",
+        technique="deductive contracts (Verus, all N) + Kani per N for the final conditional subtraction",
+        units=["add", "kernels", "mul_redc"],
+        kani=dict(features=None, quick=hs("c11"), thorough=hs("c11"), bounds="reduce1_carry: N in 1..4, all inputs"),
+        explanation="outer invariant B^k * Acc = a * lv(b,k) + m*mu and Acc < 2m; inner row invariant; threshold argument for the dropped carry",
+        trusted=COMMON_TRUST,
+        not_decided=["square_redc", "Uint::mul_redc / Uint::square_redc wrappers"],
+    ),
+    "C18": dict(
+        level="other",
+        level_text="Kani proves per width, over ALL f64 (and f32) bit patterns partitioned into range harnesses, the exact classification and value of TryFrom<f64>/<f32> "
+                   "(NaN, negative, floor(f+1/2) computed exactly from the bits, ValueTooLarge), the saturating/wrapping forms, and for Uint-to-float: neighbour-of-exact-value, exactness when representable, finiteness, monotonicity",
+        level_note="floats are outside Verus; CBMC is bit-precise for IEEE arithmetic but NOT for libm: f64::exp2/f32::exp2 are stubbed by their contract (exact power of two, the stub asserts an integral in-range argument) "
+                   "and fmod only feeds an unchecked payload; widths 0,1,8,53,64,65,128 (float->Uint, LIMBS <= 2) and up to 192 (Uint->float); BITS > 1024 (+inf) not covered",
+        technique="Kani contract harnesses over all float bit patterns per width, libm modelled by contract stubs",
+        units=[],
+        kani=dict(features=None,
+                  quick=hs("c18", r"_w(1|8|64|65)$|selfcheck|all_w0", r"sat_f32|mono_f32_w8"),
+                  thorough=hs("c18"), timeout_thorough=5000,
+                  bounds="all bit patterns per width; TryFrom<f64> at LIMBS <= 2"),
+        explanation="harness-level contracts with an integer decode of the float bits as oracle",
+        trusted=COMMON_TRUST + ["f64::exp2 / f32::exp2 are exact on integral arguments in [0, 1023] (contract stub; CBMC's own libm model is inexact)"],
+        not_decided=["float -> Uint at LIMBS >= 3", "f64 +infinity for BITS > 1024", "error payloads for floats"],
+    ),
+    "C04": dict(
+        level="proof",
+        level_text="representation invariant as a postcondition: every Verus contract in the closure (constants, from_limbs*, masked/apply_mask, add/sub/neg, mul, pow, div wrappers, const_from_u64 ...) ensures r.wf() for ALL widths, "
+                   "and lemma_eq_iff_val shows limb equality <=> value equality; algorithms::cmp is proved to order equal-length slices as integers. Kani adds, per non-aligned width, the canonical-closure sweep over the "
+                   "public producers, ==, Hash (recording hasher), all comparison operators, min/max/clamp, and the rejecting constructors (None / panics for every non-canonical input)",
+        level_note="the clause 'a Uint type with LIMBS != ceil(BITS/64) has no obtainable value' is a compile-time outcome (const-eval panic of Self::LIMBS) and cannot be expressed as a contract on a call: NOT decided "
+                   "(the one hole found by reading, Uint::<64,2>::MAX, was repaired: fix 4621248); producers not swept: multi-limb division/modular/gcd/root/log results, rand generators; Ord/PartialOrd impls forward to the proved cmp (assumed forwarding)",
+        technique="deductive contracts (Verus: wf as postcondition, cmp) + Kani canonical-closure sweep per width",
+        units=["core", "add", "kernels", "mul", "basics", "pow", "divw"],
+        kani=dict(features=None,
+                  quick=hs("c04", r"_w(1|7|60|65)(_must_panic)?$", r"closure_(mul|pow|div|rem|checked_div|div_ceil|reduce_mod|add_mod)"),
+                  thorough=hs("c04"), timeout_thorough=5000,
+                  bounds="widths 1,7,60,65,100,250 (+64,128 for comparisons); expensive producers at 7 bits only"),
+        explanation="wf() = sized and top limb <= mask; every producer under contract ensures it; Kani asserts limbs[L-1] <= MASK after each public producer",
+        trusted=COMMON_TRUST,
+        not_decided=["ill-formed (BITS, LIMBS) types are rejected (compile-time outcome)", "producers outside the sweep (multi-limb division results, gcd, root, log, rand)"],
     ),
 }
